@@ -178,6 +178,17 @@ func (b *tracedBuilder) NextDecoder(next gopacket.Decoder) error {
 // with an AddLayer of its own before NextDecoder whose payload is strictly shorter than the input.
 func (t *tracer) disciplined() bool {
 	ok := true
+	// progress: along the chain no decoder may be re-entered on an input that is not shorter than at
+	// its previous entry (otherwise no termination measure exists for the table)
+	minLen := map[string]int{}
+	for _, inv := range t.invs {
+		if prev, seen := minLen[inv.name]; seen && inv.inLen >= prev && inv.inLen > 0 {
+			t.viol[inv.name] = fmt.Sprintf("no progress: re-entered on %d bytes after an earlier entry on %d bytes", inv.inLen, prev)
+			ok = false
+		} else if !seen || inv.inLen < prev {
+			minLen[inv.name] = inv.inLen
+		}
+	}
 	for _, inv := range t.invs {
 		lastAdd := -1
 		for i, e := range inv.events {
@@ -203,15 +214,10 @@ func (t *tracer) disciplined() bool {
 				t.viol[inv.name] = "NextDecoder without a preceding AddLayer"
 				ok = false
 			} else if pl := len(inv.events[lastAdd].l.LayerPayload()); pl >= inv.inLen && inv.inLen > 0 {
-				if e.name == inv.name || pl > inv.inLen {
-					// no termination measure can rank a decoder above itself on the same input
-					t.viol[inv.name] = fmt.Sprintf("no progress: hands %d bytes of a %d-byte input on to %s", pl, inv.inLen, e.name)
-					ok = false
-				} else {
-					// a zero-length header handing the whole input to a DIFFERENT decoder: inside DM μ for a
-					// measure ranking this decoder above its callee (Gp.C03.zero_progress_hop); counted
-					t.hops = append(t.hops, inv.name+"->"+e.name)
-				}
+				// hands on at least its whole input (a zero-length header, or RadioTap appending an FCS):
+				// inside DM μ for a measure ranking this decoder above its callee
+				// (Gp.C03.zero_progress_hop) unless a decoder is re-entered — checked below; counted
+				t.hops = append(t.hops, inv.name+"->"+e.name)
 			}
 		}
 	}
